@@ -437,6 +437,28 @@ def check_dataset(case, root, pq, ctx=None, verbose=False):
             model = [[("bad" if isinstance(x, (bytes, bytearray)) else x) for x in cell] for cell in mo] if isinstance(mo, list) else mo
             ctx.correspondence("CatRead.read_cat(per-file dictionaries and codes) ~ categorical column of the merged read",
                                dict(_replayable(case), via=via), model, impl)
+        # the merged metadata must DESCRIBE the concatenation: every column chunk of every row group names the file that holds it
+        # (a chunk without file_path means "in the file this metadata is stored in" - wrong for a summary written from it)
+        if len(order) > 1 or shape == "subdatasets":
+            for gi, rg in enumerate(pf.row_groups):
+                fps = [c.file_path.decode() if isinstance(c.file_path, (bytes, bytearray)) else c.file_path for c in rg.columns]
+                if any(x is None for x in fps) or len(set(fps)) != 1:
+                    problems.append("%s: row group %d of the merged metadata has chunk file paths %r" % (via, gi, fps[:4]))
+                    if ctx is not None:
+                        ctx.fail(dict(cls, stage="chunk-paths"), _replayable(case), problems[-1])
+                    break
+        # every column on its own (a subset read walks the chunks by name and opens the file each chunk names)
+        if kw.get("subsets") and case["bad_schema"] is None:
+            for c in [c for c in cols if c in df.columns and c != "c"]:
+                try:
+                    one = pf.to_pandas(columns=[c])
+                    if _canon_frame(one, [c]) != _canon_frame(df, [c]):
+                        problems.append("%s: to_pandas(columns=[%r]) differs from the column of the full read" % (via, c))
+                except Exception as e:      # noqa
+                    problems.append("%s: to_pandas(columns=[%r]) raised %s: %s" % (via, c, type(e).__name__, str(e)[:120]))
+                if problems and problems[-1].startswith(via + ": to_pandas(columns") and ctx is not None:
+                    ctx.fail(dict(cls, stage="column-subset"), _replayable(case), problems[-1])
+                    break
         try:        # the row-group iterator of the merged handle walks the same rows in the same order
             it_ids = [int(x) for fr in pf.iter_row_groups(columns=["id"]) for x in fr["id"]]
             if it_ids != [int(x) for x in df["id"]]:
@@ -588,7 +610,39 @@ def _vias(case, root, pq, ctx, compare, plist, paths, order, uniq_order, base, g
         def do_merge():
             out = writer.merge(list(plist), verify_schema=verify, **({"root": given_root} if given_root else {}))
             return ParquetFile(os.path.dirname(out.fn) or ".")
-        compare("merge", do_merge, order, base, verify=verify)
+        compare("merge", do_merge, order, base, verify=verify, subsets=True)
+
+        # ---- the summary WRITTEN from the footer fast path (>= 3 single files, no verification): merge(verify_schema=False), and an append
+        #      to a directory that has no _metadata (write(append=True) opens it through the listing, then writes _metadata): re-open the
+        #      summary, read everything and every column on its own
+        def do_merge_nv():
+            out = writer.merge(list(plist), verify_schema=False, **({"root": given_root} if given_root else {}))
+            return ParquetFile(os.path.dirname(out.fn) or ".")
+        if not verify:
+            compare("merge-noverify", do_merge_nv, order, base, subsets=True)
+        if shape == "flat" and case.get("dup") is None and not verify and case["cat_mode"] in ("none", "same") and case.get("colperm") is None \
+                and not any(f.get("objbool") for f in case["files"]):
+            for junk in ("_metadata", "_common_metadata"):
+                try:
+                    os.unlink(os.path.join(root, junk))
+                except OSError:
+                    pass
+            espec = dict(case["files"][0], n=2, off=10 ** 6)
+            extra = _frame(espec)
+            sorted_order = sorted(uniq_order, key=lambda j: paths[j])
+            singles.append(extra)
+            case["files"].append(espec)
+            try:
+                def do_append():
+                    from fastparquet import write as fwrite
+                    fwrite(root, extra, file_scheme="hive", append=True)
+                    return ParquetFile(root)
+                paths.append(os.path.join(root, "appended"))
+                compare("append-to-directory-without-summary", do_append, sorted_order + [len(singles) - 1], root, subsets=True)
+            finally:
+                singles.pop()
+                paths.pop()
+                case["files"].pop()
     for p in problems[:8]:
         say("PROBLEM:", p)
     return {"problems": problems, "vias": vias}
